@@ -18,7 +18,7 @@ RULES = {
     "R1": 'rows() announces what render() produces: the traced expression rows() returns equals, case by case (FIT / AUTO), the height component of the size render() gives the image in a flow layout (FIT: set_size(size[0]); AUTO: ORIGINAL if it fits into the FIT size else FIT); the canvas records the size it was rendered with',
     "R2": "row assembly: in the text branch of UrwidImageCanvas.content each image row is [left padding, recovered first colour, image cells, "
           "colour reset, right padding, last-row workaround]; the first colour is recovered by scanning backwards from the cut and keeps the cell's "
-          "whole colour prefix (up to its LAST 'm'); the untrimmed fast path is taken only when both horizontal trims are zero; a slice [lo:hi] of the held lines takes hi - lo == visible_rows rows",
+          "whole colour prefix (up to its LAST 'm'); the untrimmed fast path is taken only when both horizontal trims are zero; a slice [lo:hi] of the held lines takes hi - lo == visible_rows rows; every yielded row is a fresh object (no `yield row` of a list bound before the loop and modified in place inside it)",
     "R4": "_ti_calc_trim is exact (proved per path by linear arithmetic, tiv/linarith.py): under size == pad1 + image + pad2, all >= 0, image >= 1 and a non-empty "
           "window (trim1 + trim2 <= size - 1) its results are (|window & pad1|, clamp(trim1 - pad1, 0, image), clamp(trim2 - pad2, 0, image), |window & pad2|) on every feasible path",
     "R3": "the canvas describes the render it holds: content() uses the image size recorded when the canvas was rendered (self._ti_image_size), never "
